@@ -411,3 +411,121 @@ Theorem C06_mech_iter_is_mstep : forall sx st b r dclock who ev,
 Proof. reflexivity. Qed.
 Print Assumptions C06_mech_iter_is_mstep.
 (* ==== end of block (unit emuloop) ==== *)
+
+(* ==== connect-time wiring from source (unit connect) ==== *)
+(* The code that BUILDS the bay is regenerated from src/emu/thread.c (thread_init_end, thread_connect), cpu.c (cpu_init_end,
+   cpu_connect, cpu_get_th_chan), track.c (track_init, track_set_select, track_set_input, track_th_input_chan,
+   track_connect_thread, track_get_output), model_thread.c (init_chan, init_thread, model_thread_create,
+   model_thread_connect), model_cpu.c (init_chan, init_cpu, model_cpu_create, connect_cpu, model_cpu_connect), model_pvt.c
+   (connect_thread_prv, connect_cpu_prv, model_pvt_connect_thread / _cpu) and the pvt.c getters into Gen/Connect_gen.v on
+   every run, over Emu/ConnectPre.v (a BayDefs bay under construction + the heap the C allocates; chan_init /
+   chan_prop_set / bay_register / mux_init / mux_set_input / prv_register are primitives with the meaning BayDefs gives
+   them; the PRV types and flags of the system channels are those unit pv dumps from thread.c / cpu.c).
+   ConnectProofs.connect_all sx starts from the EMPTY bay and runs, in the emulator's order: the generated
+   thread_init_end / cpu_init_end of every thread / CPU, the generated thread_connect / cpu_connect (system_connect), the
+   generated model_thread_create + model_cpu_create of every model, then the generated model_thread_connect +
+   model_cpu_connect (+ the hand-written mux_set_default tail of <model>/setup.c) of every model, in slot order; the loops
+   of system.c and model.c that call them are written by hand in connect_all.
+   ConnectProofs.normalize reads, off the heap the generated code built (extend tables, th->ch, th->track, cpu->track,
+   track->mux), which built channel / mux is which channel / mux of BayDefs.wire and renames the built bay; it refuses
+   unless the renaming is a bijection onto everything that was built.
+   C06_wiring_from_source_partial: for 2 threads, 2 CPUs + the virtual CPU and EVERY subset of the models of the dumped
+   table (channel specs in slot order), and C06_wiring_from_source_sizes_partial for 1..4 threads x 1..4 CPUs, the
+   renamed bay IS BayDefs.wire: same channels with the same properties, same dirty callbacks IN THE SAME ORDER on every
+   channel (the cb_select's on a thread's state channel and on a CPU's th_running channel), same muxes (select, inputs
+   in thread order, output, select function, default), same emit callbacks (side, row, type, flags) = key_of /
+   flags_of of the slots, for the system channels too.
+   PARTIAL: the statement is established by computation for those families (and for any concrete description through the
+   decidable certificate ConnectProofs.wiring_ok: C06_wiring_certificate); the induction over arbitrary numbers of
+   threads / CPUs / channel specs is missing.  Not covered: the mark channels of ovni/mark.c (pseudo-model 1000) and the
+   breakdown wiring (C20).
+   FINDING: model_connect runs the hooks in slot order (increasing model id) whereas Tables_gen.chanspecs (hence
+   DecodeDefs.mk_chans and BayDefs.wire on it) is in models_register order: with several models enabled BayDefs.wire
+   orders the cb_select callbacks of a thread's state channel differently from the emulator
+   (C06_ex_wiring_table_order_differs).  Only the order of PRV lines inside one propagation depends on it (C06 compares
+   them per key); the theorems are about specs in slot order (ConnectProofs.slot_chans). *)
+From OV Require Emu.ConnectPre Gen.Connect_gen Proofs.ConnectProofs Proofs.ConnectFnProofs.
+
+Theorem C06_wiring_from_source_partial : forall en, In en (ConnectProofs.subsets ConnectProofs.all_models) ->
+  exists st, ConnectProofs.connect_all (ConnectProofs.fam_sx en) = Ok st /\
+             ConnectProofs.normalize (ConnectProofs.fam_sx en) st = Some (wire (ConnectProofs.fam_sx en)).
+Proof. exact ConnectProofs.wiring_from_source_family. Qed.
+Print Assumptions C06_wiring_from_source_partial.
+
+(* the same for 1..4 threads x 1..4 CPUs with all models, only nOS-V, and ovni + Nanos6 *)
+Theorem C06_wiring_from_source_sizes_partial : forall nt nc en, In (nt, nc) ConnectProofs.sizes -> In en ConnectProofs.size_models ->
+  exists st, ConnectProofs.connect_all (ConnectProofs.sized_sx nt nc en) = Ok st /\
+             ConnectProofs.normalize (ConnectProofs.sized_sx nt nc en) st = Some (wire (ConnectProofs.sized_sx nt nc en)).
+Proof. exact ConnectProofs.wiring_from_source_sizes. Qed.
+Print Assumptions C06_wiring_from_source_sizes_partial.
+
+(* the decidable certificate, for any static description *)
+Theorem C06_wiring_certificate : forall sx, ConnectProofs.wiring_ok sx = true ->
+  exists st, ConnectProofs.connect_all sx = Ok st /\ ConnectProofs.normalize sx st = Some (wire sx).
+Proof. exact ConnectProofs.wiring_ok_sound. Qed.
+Print Assumptions C06_wiring_certificate.
+
+(* C06_bay_run_refines is about the bay the generated code builds: for a description that passes the certificate, the
+   (renamed) built bay is wire sx, from which wire_init / mrun_from start *)
+Theorem C06_wiring_run_refines : forall sx evs, ConnectProofs.wiring_ok sx = true ->
+  (0 < length (s_threads sx))%nat -> wf_keys sx -> init_ok_chans sx -> (forall x, In x evs -> ev_wf (snd x)) ->
+  exists st, ConnectProofs.connect_all sx = Ok st /\ ConnectProofs.normalize sx st = Some (wire sx) /\
+  exists b, wire_init sx = Ok (b, [], []) /\
+    match run_from sx (init sx) evs, mrun_from sx (init sx) b evs with
+    | Ok (st', tl), Ok (st'', b', mtl) =>
+      state_equiv st'' st' /\ Wired sx st'' b' /\ Permutation mtl tl /\ forall k, tfilter k mtl = tfilter k tl
+    | Err _, Err _ => True
+    | _, _ => False
+    end.
+Proof.
+  exact (fun sx evs H a b c d => match ConnectProofs.wiring_ok_sound sx H with
+                                 | ex_intro _ st (conj E1 E2) => ex_intro _ st (conj E1 (conj E2 (C06_bay_run_refines sx evs a b c d))) end).
+Qed.
+Print Assumptions C06_wiring_run_refines.
+
+(* the enum constants the prelude hard-codes are those the compiler gives *)
+Theorem C06_connect_constants :
+  Connect_gen.c_CHAN_ALLOW_DUP = ConnectPre.P_ALLOW_DUP /\ Connect_gen.c_CHAN_IGNORE_DUP = ConnectPre.P_IGNORE_DUP /\ Connect_gen.c_CHAN_STACK = ConnectPre.T_STACK /\ Connect_gen.c_CHAN_SINGLE = 0 /\
+  Connect_gen.c_TRACK_TH_ANY = TRACK_ANY /\ Connect_gen.c_TRACK_TH_RUN = TRACK_RUN /\ Connect_gen.c_TRACK_TH_ACT = TRACK_ACT /\
+  Connect_gen.c_TH_CHAN_STATE = Z.of_nat W_STATE /\ Connect_gen.c_CPU_CHAN_THRUN = Z.of_nat X_THRUN /\
+  Connect_gen.c_TH_CHAN_MAX = 3 /\ Connect_gen.c_CPU_CHAN_MAX = 5.
+Proof. exact ConnectProofs.prop_constants. Qed.
+Print Assumptions C06_connect_constants.
+
+(* general (every state): what track_th_input_chan does per tracking mode, and where the CPU muxes select *)
+Theorem C06_track_modes_from_source : forall b i sel inp sx st o,
+  ConnectPre.track_at st (Some (b, i)) = Some o ->
+  (ConnectPre.tk_mode o = TRACK_ANY ->
+     Connect_gen.track_th_input_chan (Some (b, i)) sel inp sx st = ConnectPre.set_track_out (Some (b, i)) (fun _ _ => inp) sx st) /\
+  (forall f, ConnectFnProofs.mux_mode (ConnectPre.tk_mode o) = Some f ->
+     Connect_gen.track_th_input_chan (Some (b, i)) sel inp sx st =
+     ConnectPre.bind_ (ConnectPre.mux_init (Some (b, i)) (ConnectPre.tk_bay o) sel (Some (ConnectPre.ATrk b i)) (Some f) 1)
+       (ConnectPre.bind_ (ConnectPre.set_track_out (Some (b, i)) (fun _ _ => Some (ConnectPre.ATrk b i)))
+                         (ConnectPre.mux_set_input (Some (b, i)) 0 inp)) sx st) /\
+  (ConnectPre.tk_mode o <> TRACK_ANY -> ConnectFnProofs.mux_mode (ConnectPre.tk_mode o) = None ->
+     Connect_gen.track_th_input_chan (Some (b, i)) sel inp sx st = Err ConnectPre.E_FAIL).
+Proof.
+  exact (fun b i sel inp sx st o H =>
+    conj (ConnectFnProofs.track_th_input_chan_any b i sel inp sx st o H)
+         (conj (fun f => ConnectFnProofs.track_th_input_chan_mux b i sel inp sx st o f H)
+               (ConnectFnProofs.track_th_input_chan_bad_mode b i sel inp sx st o H))).
+Qed.
+Print Assumptions C06_track_modes_from_source.
+Theorem C06_cpu_mux_select_from_source : forall sx st c,
+  Connect_gen.cpu_get_th_chan sx st (Some c) = Some (ConnectPre.ASysCpu c X_THRUN).
+Proof. exact ConnectFnProofs.cpu_get_th_chan_is_thrun. Qed.
+Print Assumptions C06_cpu_mux_select_from_source.
+
+(* the 2-thread 2-CPU system of C06_ex_bay_batch (a RUNNING-tracked stack, an ACTIVE-tracked channel with a CPU
+   default), and the nOS-V + ovni system of the family: the generated code builds their BayDefs.wire *)
+Example C06_ex_wiring_sx2 : ConnectProofs.wiring_ok sx2 = true.
+Proof. vm_compute. reflexivity. Qed.
+Example C06_ex_wiring_nosv : ConnectProofs.wiring_ok (ConnectProofs.fam_sx (DecodeDefs.M_OVNI :: DecodeDefs.M_NOSV :: nil)) = true.
+Proof. vm_compute. reflexivity. Qed.
+(* the finding: with the specs in the order of the dumped table (models_register order) and all models enabled the
+   callback order of BayDefs.wire is not the emulator's *)
+Example C06_ex_wiring_table_order_differs :
+  ConnectProofs.wiring_ok {| s_threads := ConnectProofs.fam_threads; s_cpus := ConnectProofs.fam_cpus;
+                             s_chans := DecodeDefs.mk_chans ConnectProofs.all_models; s_lint := false |} = false.
+Proof. vm_compute. reflexivity. Qed.
+(* ==== end of block (unit connect) ==== *)
